@@ -625,7 +625,7 @@ func full(a *hx.Args, in *input, res *hx.Result) {
 	sort.Strings(ks)
 	res.Notes["alteration_kinds"] = ks
 	res.Notes["leaf_classes_spec"] = len(specClasses)
-	res.Notes["leaf_classes_altered"] = len(classesSeen)
+	res.Notes["classes_altered"] = len(classesSeen)
 	res.Notes["leaf_kind_x_branch_altered"] = len(typesSeen)
 	res.Notes["leaves_enumerated"] = leavesTotal
 	res.Notes["class_kind_pairs_executed"] = len(covered)
